@@ -136,6 +136,15 @@ def judge(t):
         t.world.probe('not-judged:compile-raised')
         if isinstance(t.escaped, core.StepBudget):
             V('C09.0-finished', 'compile() did not finish within the event budget', what='budget')
+        elif t.escaped is not None and opts.get('ignoreErrors') and opts.get('writeMibs', True):
+            # "when errors are ignored, every module that was built is written": a call that dies on one module's problem
+            # leaves the modules it had already built unwritten
+            built = sorted(set(c.mib for c in t.by('codegen.genCode') if c.ok))
+            stored = set(c.mib for c in t.by('writer.putData') if c.ok)
+            lost = [m for m in built if m not in stored]
+            if lost:
+                V('C09.2-ignore-errors', 'compile(ignoreErrors) was aborted by %s; built modules %s were never written' % (type(t.escaped).__name__, lost),
+                  what='aborted-with-built-modules', exception=type(t.escaped).__name__)
         return viol
     F, B, fresh = failure_sets(t)
     cores = set()      # (D18 is repaired: no name is exempt any more)
